@@ -51,6 +51,9 @@ def peak_check(I, ax, np):
             continue
         if Fraction(a['m']) > fr(a['Q']) * a['n']:
             continue      # output spans more than one period: aliases of the spot are legitimate
+        if float(prof.max()) < 1e-12:
+            continue      # no light in the window at all (the OTHER axis puts its spot outside the window, every sample on a zero
+            #               of its kernel): the profile is rounding noise and shows nothing about this axis
         if idx.denominator == 1:
             if int(np.argmax(prof)) != int(idx):
                 return name, 'spot expected at sample %s, profile %s' % (idx, np.round(prof, 6).tolist())
